@@ -86,9 +86,10 @@ fn run(id: usize, sched: &[String], rng: &mut StdRng) -> J {
     };
     for cmd in sched {
         match cmd.as_str() {
-            "feed" => {
+            "feed" | "feedbig" => {
                 fed += 1;
-                let junk = tricky(rng);
+                let mut junk = tricky(rng);
+                if cmd == "feedbig" { junk.push_str(&"x".repeat(3000)); }
                 let payload = json!({"i": fed, "junk": junk});
                 payloads.push(payload.clone());
                 let resp = Response::new(Value::from_json(payload).unwrap());
